@@ -112,7 +112,8 @@ def legal_prefixes(n):
 
 def plan(tier):
     pre = [p for p in legal_prefixes(6) if len(p) == 6]
-    units = [('short',)] + [('tree', p) for p in pre] + [('graph',)]
+    units = [('short',)] + [('tree', p) for p in pre] + [('graph',),
+                                                         ('scale',)]
     return {
         'units': units,
         'rule': 'every legal prefix of section ids up to length %d (legal by '
@@ -140,7 +141,8 @@ def run_unit(unit, tier):
         for s in IDS:
             seq = prefix + [s]
             allv = []
-            for blank in BLANKS:
+            for blank in (BLANKS if recurse[0] or len(seq) < 40
+                          else BLANKS[:2]):
                 viols, ok = check_sequence(seq, blank)
                 acc.evals += 1
                 acc.transitions += 1
@@ -161,7 +163,21 @@ def run_unit(unit, tier):
                 visit(seq)
 
     recurse = [True]
-    if unit[0] == 'short':
+    if unit[0] == 'scale':
+        # long legal sequences (many changes / files), every successor id
+        # tried after each of their last 12 positions
+        recurse[0] = False
+        for nch, nf in ((3, 3), (4, 4), (10, 10), (33, 2), (2, 33)):
+            seq = ['diffx', '.preamble', '.meta']
+            for c in range(nch):
+                seq += ['.change', '..preamble', '..meta']
+                for f in range(nf):
+                    seq += ['..file', '...meta'] + (['...diff'] if (c + f) % 2
+                                                    else [])
+            for cut in range(max(1, len(seq) - 8), len(seq) + 1):
+                visit(seq[:cut])
+        acc.sample({'long_sequences': 'up to 100 changes x 3 files'}, 1)
+    elif unit[0] == 'short':
         recurse[0] = False
         for p in legal_prefixes(5):
             visit(p)
